@@ -283,7 +283,11 @@ int main(int argc, char** argv) {
       }
       if (op->k == 'U') {
         uint64_t tmo = (uint64_t)op->arg * 10000000ull;
-        if (op->t1 - op->t0 > tmo + 5000000ull) timed = false;
+        // scheduling delay: virtual time that passes while the caller is runnable but not running is bounded by the time
+        // the program lets pass explicitly (A ops) plus 50 ns per scheduling point of the run (< 2 ms)
+        uint64_t slack = 2000000ull;
+        for (auto x : all) if (x->k == 'A') slack += (uint64_t)x->arg * 1000000ull;
+        if (op->t1 - op->t0 > tmo + slack) timed = false;
         long long size_at = 0;
         for (auto x : all) if (x != op && x->k != 'A' && x->e < op->b) size_at += (long long)x->pushed_cnt + (long long)x->injected.size() - (long long)x->popped.size();
         long long want = std::min<long long>((long long)op->n, size_at);
